@@ -221,6 +221,7 @@ package service
 //@   ensures[creates-iff-nothing-matched] old(optCreate(its)) && code == caseMatchNothing ==> result == nil && fresh(its.datatypeDoc)
 //@   ensures[subscribes-when-matched]    old(optSubscribe(its)) && code == caseAllMatchedNotSubscribed ==> result == nil && its.datatypeDoc == old(its.datatypeDoc) && len(its.gotPushPullPack.Operations) == 0
 //@   ensures[accepted-is-ready]          result == nil ==> its.datatypeDoc != nil && mongodb.docWF(its.datatypeDoc) && its.currentCP != nil && its.initialCP != nil && its.currentCP != its.gotPushPullPack.CheckPoint
+//@   ensures[an-accepted-request-works-on-the-datatype-it-found] result == nil ==> its.DUID == its.datatypeDoc.DUID
 //@   ensures[refused-creates-nothing]    result != nil ==> its.datatypeDoc == old(its.datatypeDoc)
 //@   ensures[accepted-keeps-log-inv]     result == nil ==> logInv(its) && mongodb.cpOK(its.currentCP) && its.currentCP.Sseq <= its.datatypeDoc.Sseq.End && reqOpsWF(its.gotPushPullPack.Operations) && G.stored == old(G.stored)
 //@   ensures[request-checkpoint-untouched] its.gotPushPullPack.CheckPoint == old(its.gotPushPullPack.CheckPoint) && (its.gotPushPullPack.CheckPoint != nil ==> its.gotPushPullPack.CheckPoint.Sseq == old(its.gotPushPullPack.CheckPoint.Sseq))
